@@ -13,7 +13,7 @@ import (
 func init() { props["C01"] = runC01; props["C02"] = runC02 }
 
 func omniFor(run *Run) Omni {
-	o := Omni{Bases: 40, PosSample: 40, OnlyBase: -1, Opts: ScenarioOpts{Histories: 6, Gen: GenOpts{MaxDepth: 2}}}
+	o := Omni{Bases: 100, PosSample: 30, OnlyBase: -1, Opts: ScenarioOpts{Histories: 6, Gen: GenOpts{MaxDepth: 2}}}
 	if run.Thorough {
 		o.Bases, o.AllPos, o.Opts.Histories = 150, true, 60
 	}
